@@ -207,10 +207,11 @@ def build_harness(name, flavor, srcs, wraps=(), cflags=(), ldflags=(), lib=True,
     tmp = exe + '.tmp%d' % os.getpid()
     hflags = [f for f in fl if f != '-w'] + ['-I' + os.path.join(ROOT, 'harness', 'common'), '-I' + os.path.join(ROOT, 'harness'),
                                              '-Wall', '-Wno-unused-function', '-Wno-unused-variable', '-Wno-pointer-sign',
-                                             '-Wno-unused-but-set-variable']
+                                             '-Wno-unused-but-set-variable', '-Wno-unused-value', '-Wno-format-truncation']
     r = _run([cc] + hflags + list(cflags) + paths + objs + wl + list(ldflags) + LIBS + ['-o', tmp])
     if r.returncode != 0:
-        raise Inconclusive('harness build failed (%s/%s):\n%s' % (name, flavor, r.stdout[-6000:]))
+        errs = [l for l in r.stdout.splitlines() if 'error' in l or 'undefined reference' in l]
+        raise Inconclusive('harness build failed (%s/%s):\n%s\n...\n%s' % (name, flavor, '\n'.join(errs[:40]), r.stdout[-1500:]))
     os.rename(tmp, exe)
     _prune('h-%s-%s-' % (name, flavor), keep=exe)
     return exe
